@@ -95,7 +95,7 @@ def run(module, cfg, *, workers=16, env=None, timeout=1800, simulate=None, depth
 
     simulate: None or "num=N" (string appended to -simulate)."""
     meta = tempfile.mkdtemp(prefix="tlcmeta_")
-    props = []
+    props = ["-Djava.io.tmpdir=" + meta]      # TLC unpacks its standard modules into the JVM's temporary directory: keep that inside the run's own
     if dfs:
         props.append("-Dtlc2.tool.queue.IStateQueue=StateDeque")
     cmd = _java(xmx=xmx, extra_props=props) + ["tlc2.TLC", "-workers", str(workers), "-metadir", meta,
